@@ -14,6 +14,7 @@ not only for the kept maps.
 * `C18_observers_schedule_independent`    (stored objects, roots) — and with them everything `Geom` and `CountTags`
                                           compute — do not depend on the schedule nor on W;
 * `C18_filter_observers`                  the same for `Filter` (state-independent keep, any map orders);
+* `C18_cancel_no_partial_result`          cancelled by the n-th rewind: the context error, or exactly the least closed set;
 * `C18_geom_no_dropped_point`             document without dangling references: every way of the result gets ALL its
                                           points in `Geom` (`nodeToPoint(nil)` never fires).
 -/
@@ -143,6 +144,48 @@ theorem C18_geom_no_dropped_point (k : Keep) (W : Nat) (hW : 0 < W) (doc : Doc) 
   obtain ⟨r, hr, hc⟩ := C18_check k W hW doc hu hd sched
   exact ⟨r, hr, fun w hw => wayPoints_length hc hw⟩
 
+/-! ## cancellation -/
+
+theorem loopGC_spec (e : Env) (doc : Doc) (n : Nat) :
+    ∀ (f i : Nat) (ps : List (List Obj × List Nat)) (s : State),
+      loopGC e doc n f i ps s = .ok none ∨ loopGC e doc n f i ps s = (loopG e doc f ps s).map some
+  | 0, _, _, _ => .inr rfl
+  | f+1, i, ps, s => by
+    simp only [loopGC, loopG]
+    by_cases hn : i + 1 = n
+    · simp [hn]
+    · simp only [hn, if_false]
+      by_cases hf : (runPass e (nextPass doc ps).1 (nextPass doc ps).2 s).st.flag = true
+      · simp only [hf, if_true]
+        exact loopGC_spec e doc n f (i + 1) ps.tail _
+      · simp only [hf, if_false]
+        exact .inr rfl
+
+/-- **C18_cancel_no_partial_result** ("returns exactly the least set", on the error path): an extraction whose
+context is cancelled by the n-th rewind of its input, for every n, keep function, `W ≥ 1` and schedule,
+EITHER returns the context error OR returns exactly the least closed set — never a nil error with a partial
+result. -/
+theorem C18_cancel_no_partial_result (k : Keep) (W : Nat) (hW : 0 < W) (doc : Doc) (hu : uniqueKeys doc)
+    (n : Nat) (sched : List (List Nat)) :
+    extractCancelRun k W doc n sched = .ok none ∨
+    ∃ K : List Ref, IsLeastClosed doc k (· ∈ K) ∧
+      extractCancelRun k W doc n sched = .ok (some (doc.filter fun o => decide (o.key ∈ K))) := by
+  obtain ⟨K, hl, h⟩ := C18_complete k W hW doc hu sched
+  rcases loopGC_spec ⟨true, k, W⟩ doc n (passFuel doc) 0 (sched.map fun ch => (doc, ch)) State.init with h0 | h1
+  · left; simp [extractCancelRun, h0, Except.map]
+  · right
+    refine ⟨K, hl, ?_⟩
+    unfold extractCancelRun
+    rw [h1]
+    unfold extractRun runG at h
+    cases hr : loopG ⟨true, k, W⟩ doc (passFuel doc) (sched.map fun ch => (doc, ch)) State.init with
+    | error err => rw [hr] at h; simp [Except.map] at h
+    | ok s =>
+      rw [hr] at h
+      simp only [Except.map] at h ⊢
+      injection h with h
+      simp [h]
+
 /-! ## concrete witnesses (non-vacuity, and the quirks the model carries) -/
 
 /-- a closed way that nothing references is a root; its nodes are not; a relation cycle has no root -/
@@ -153,5 +196,10 @@ example : countTags [⟨⟨.way, 7⟩, [], 0, 0, []⟩] = .error .indexOutOfRang
 
 /-- a one-node way counts as a CLOSED way (`Nodes[0] == Nodes[len-1]`) -/
 example : otype ⟨⟨.way, 7⟩, [⟨.node, 1⟩], 0, 0, []⟩ = .ok .closedWay := rfl
+
+/-- cancelling on the first rewind gives the error, cancelling on a rewind that never happens gives the set -/
+example : (extractCancelRun (keepBounds box) 1 [w1, n1, n2] 1 []).toOption = some none := by decide
+example : (extractCancelRun (keepBounds box) 1 [w1, n1, n2] 9 []).toOption.join.map (·.map (·.key)) =
+    some [⟨.way, 1⟩, ⟨.node, 1⟩, ⟨.node, 2⟩] := by decide
 
 end GeomV.C18
